@@ -492,13 +492,9 @@ func (e *Engine) appendOp(cc *ssa.CallCommon, args []Value) Value {
 	}
 	res := dst
 	if dst.len+n > dst.cap {
-		nc := dst.cap * 2
-		if nc < dst.len+n {
-			nc = dst.len + n
-		}
-		if nc < 4 {
-			nc = 4
-		}
+		// the capacity the Go runtime would give (growslice + malloc size classes): whether a
+		// later append aliases this array is observable behaviour (see C20)
+		nc := goGrowCap(dst.cap, dst.len+n, e.L.sizes.Sizeof(et), !typeHasPointers(et))
 		e.allocBytes(int64(nc) * e.L.sizes.Sizeof(et))
 		ns := e.newSlice(et, dst.len+n, nc, "append")
 		for i := 0; i < dst.len; i++ {
@@ -632,4 +628,62 @@ func (e *Engine) writeCheck(h *ObjHdr, what string) {
 			e.endPath(endStop, "violation limit")
 		}
 	}
+}
+
+
+// ---- the Go runtime's slice growth (runtime.growslice, go1.20+; size classes of go1.23) ----
+
+var goSizeClasses = []int64{0, 8, 16, 24, 32, 48, 64, 80, 96, 112, 128, 144, 160, 176, 192, 208, 224, 240, 256, 288, 320, 352, 384, 416, 448, 480, 512, 576, 640, 704, 768, 896, 1024, 1152, 1280, 1408, 1536, 1792, 2048, 2304, 2688, 3072, 3200, 3456, 4096, 4864, 5120, 5376, 6144, 6528, 6784, 6912, 8192, 9472, 9728, 10240, 10880, 12288, 13568, 14336, 16384, 18432, 19072, 20480, 21760, 24576, 27264, 28672, 32768}
+
+func goRoundupSize(size int64, noscan bool) int64 {
+	req := size
+	if !noscan && size > 512 {
+		req += 8 // malloc header
+	}
+	if req <= 32768-8 || (noscan && req <= 32768) {
+		for _, c := range goSizeClasses {
+			if c >= req {
+				return c - (req - size)
+			}
+		}
+	}
+	const page = 8192
+	return (req + page - 1) / page * page
+}
+
+func goGrowCap(oldCap, newLen int, elemSize int64, noscan bool) int {
+	newcap := oldCap
+	doublecap := newcap + newcap
+	switch {
+	case newLen > doublecap:
+		newcap = newLen
+	case oldCap < 256:
+		newcap = doublecap
+	default:
+		for newcap < newLen {
+			newcap += (newcap + 3*256) >> 2
+		}
+	}
+	if elemSize == 0 {
+		return newcap
+	}
+	mem := goRoundupSize(int64(newcap)*elemSize, noscan)
+	return int(mem / elemSize)
+}
+
+func typeHasPointers(t types.Type) bool {
+	switch u := t.Underlying().(type) {
+	case *types.Basic:
+		return u.Kind() == types.String || u.Kind() == types.UnsafePointer
+	case *types.Array:
+		return typeHasPointers(u.Elem())
+	case *types.Struct:
+		for i := 0; i < u.NumFields(); i++ {
+			if typeHasPointers(u.Field(i).Type()) {
+				return true
+			}
+		}
+		return false
+	}
+	return true
 }
